@@ -13,6 +13,11 @@ func init() {
 				Reach: []string{"child step failed", "root step failed", "chunked downstream calls", "same message twice", "two failed requests in one batch"}, Functions: fns},
 			{Name: "two-services-fail", Pkg: ".", Files: files, Entry: "VerifTwoServicesFail", Mode: "seq", Native: true,
 				Reach: []string{"two services failed", "same message from two services"}, Functions: fns},
+			// the same over a subscription: an upstream event that carries errors (alone, or next to partial data that
+			// the gateway completes from other services) reaches the client with message, extensions and path
+			{Name: "subscription-event-errors", Pkg: ".", Files: []string{"root/fed.go", "root/c01.go", "root/ws.go", "root/c17.go"}, Entry: "VerifEvents", Mode: "seq",
+				Quick: map[string]int{"maxsubs": 1, "maxevents": 2, "quickmerge": 0}, Thorough: map[string]int{"maxsubs": 2, "maxevents": 2, "quickmerge": 0},
+				Reach: []string{"events checked"}, Functions: []string{"(*subscriptionEntry).Listen", "(*subscriptionEntry).prepareResponse", "(*Gateway).newSubscriptionEntry$1 (executorFn)"}},
 		},
 		Assume: []string{
 			"gqlparser's validator decides validity natively; the 14 invalid operations are mutations of valid ones (unknown field/type/argument, wrong variable type, fragment cycle, ambiguous / unknown operation, syntax error, missing selection / argument, unused fragment / variable, subscription without root)",
